@@ -4,9 +4,19 @@ Monitor: three-way histories under one virtual clock -- the real DjangoCache, Dj
 for the contract nobody here wrote) and a plain-Python reference of the contract written from the property text.
 Correspondence: the same histories through coq/model/Django.v (`run (dj_step cfg) [] history`), compared per call
 with what DjangoCache returned.
+
+Two further dimensions, monitors only (same three-way comparison, the model has neither):
+  values      -- the value alphabet around the file threshold (disk_min_file_size): text with CR / CRLF / LF, bytes, pickled
+                 containers, inline and file-backed, through every method that stores, returns or copies a value;
+  contention  -- a call made while other connections hold the write lock of every shard for k failed BEGIN attempts (and, optionally,
+                 again before every further transaction of the call) must behave exactly as the contract says: the DjangoCache
+                 methods default to retry=True, they wait.
 """
+import hashlib
+import json
 import os
 import shutil
+import sqlite3
 import tempfile
 
 import fw
@@ -26,7 +36,7 @@ ID = 'C19'
 TITLE = 'DjangoCache honours the Django cache backend contract'
 COQ_PROP = 'C19'
 LEVEL = 'proof'
-TRANSLATE = ['django']
+TRANSLATE = ['django', 'disk']     # disk: Disk.store / Disk.fetch carry every cached value (raw number, text, bytes, pickle; inline and file)
 TRUSTED = [
     'hand-written single-client dictionary semantics of the FanoutCache methods (bk_set, bk_add, bk_get, bk_touch, bk_pop, '
     'bk_delete, bk_contains, bk_incr, bk_clear in coq/model/Django.v): tied to /repo by the per-call correspondence of this check',
@@ -35,12 +45,17 @@ TRUSTED = [
     'the contract dj_spec (coq/model/Django.v) and the Python reference of this harness are readings of the Django '
     'documentation; Django\'s LocMemCache is run beside them as an independent oracle',
     'virtual clock installed into diskcache.core, diskcache.recipes, django.core.cache.backends.base and .locmem',
+    'contention dimension: sched.Tracer (logging proxies for sqlite3 / open / os inside diskcache.core) reports the BEGIN attempts of the '
+    'calling thread; plain sqlite3 connections of the harness hold and release the shard write locks',
 ]
 ASSUMPTIONS = [
-    'single client: no database Timeout occurs (C14 covers timeouts)',
+    'single client in the theorem and the correspondence: no database Timeout occurs (C14 covers timeouts); the monitors add one '
+    'other connection that only holds the shard write locks for a bounded number of failed BEGIN attempts and writes nothing',
     'the clock never runs backwards within a history',
     'size_limit is never reached, so culling removes only expired entries (unobservable)',
-    'values are integers; versions are integers',
+    'values are integers in the theorem and the correspondence; the monitors add str / bytes / float / tuple / list / dict values on both '
+    'sides of disk_min_file_size (no None, bool, NaN, lone surrogates or integers beyond 64 bits: C01 covers the alphabet of Disk); '
+    'incr / decr are only generated for keys that hold integers; versions are integers',
 ]
 
 # Former finding C19-F1 (D6, fixed in core.py): incr/decr exactly at the expiry instant incremented an item no lookup
@@ -74,9 +89,90 @@ def canon(v):
         return ['bool', v]
     if isinstance(v, int):
         return ['int', v]
-    if isinstance(v, list):
-        return ['list', [canon(x) if not isinstance(x, str) else x for x in v]]
-    return ['other', repr(v)[:80]]
+    return ['val', type(v).__name__, digest(v), describe(v)]
+
+
+def deep(v):
+    """type-tagged structure: equal iff same types and same contents all the way down (1 is not 1.0, (1,) is not [1])"""
+    if isinstance(v, (list, tuple)):
+        return (type(v).__name__, tuple(deep(x) for x in v))
+    if isinstance(v, dict):
+        return ('dict', tuple((deep(k), deep(x)) for k, x in v.items()))
+    if isinstance(v, float):
+        return ('float', repr(v))
+    if isinstance(v, (str, bytes, int, bool)) or v is None:
+        return (type(v).__name__, v)
+    return ('object', type(v).__name__, repr(v))
+
+
+def digest(v):
+    return hashlib.sha1(repr(deep(v)).encode('utf-8', 'backslashreplace')).hexdigest()[:16]
+
+
+def describe(v):
+    if isinstance(v, str):
+        return 'len=%d CR=%d LF=%d %r' % (len(v), v.count('\r'), v.count('\n'), v[:12])
+    if isinstance(v, bytes):
+        return 'len=%d CR=%d LF=%d %r' % (len(v), v.count(b'\r'), v.count(b'\n'), v[:8])
+    if isinstance(v, (tuple, list)):
+        return '(' + ', '.join(type(x).__name__ + (' ' + describe(x) if isinstance(x, (str, bytes)) else '') for x in v[:4]) + ')'
+    if isinstance(v, dict):
+        return '{' + ', '.join('%r: %s' % (k, type(x).__name__ + (' ' + describe(x) if isinstance(x, (str, bytes)) else ''))
+                               for k, x in list(v.items())[:4]) + '}'
+    return repr(v)[:60]
+
+
+def has_val(c):
+    """the canonical result carries a value outside the integers (directly or inside a get_many map)"""
+    return c is not None and (c[0] == 'val' or (c[0] == 'map' and any(p[1][0] == 'val' for p in c[1])))
+
+
+# values travel through histories as JSON-able specs: an int is itself; {'t': 'str', 'unit': u, 'n': n} is u * n;
+# {'t': 'bytes', 'unit': hex, 'n': n}; {'t': 'float', 'v': x}; {'t': 'tuple' | 'list', 'items': [specs]}; {'t': 'dict', 'items': [[k, spec]]}
+_VALS = {}
+
+
+def mkval(spec):
+    if not isinstance(spec, dict):
+        return spec
+    key = json.dumps(spec, sort_keys=True)
+    if key not in _VALS:
+        if len(_VALS) > 300:
+            _VALS.clear()
+        t = spec['t']
+        if t == 'str':
+            v = spec['unit'] * spec['n']
+        elif t == 'bytes':
+            v = bytes.fromhex(spec['unit']) * spec['n']
+        elif t == 'float':
+            v = float(spec['v'])
+        elif t == 'tuple':
+            v = tuple(mkval(x) for x in spec['items'])
+        elif t == 'list':
+            v = [mkval(x) for x in spec['items']]
+        elif t == 'dict':
+            v = dict((k, mkval(x)) for k, x in spec['items'])
+        else:
+            raise ValueError('value spec %r' % (spec,))
+        _VALS[key] = v
+    return _VALS[key]
+
+
+def show_val(spec):
+    if not isinstance(spec, dict):
+        return repr(spec)
+    t = spec['t']
+    if t in ('str', 'bytes'):
+        return '%s(%r*%d)' % (t, spec['unit'], spec['n'])
+    if t == 'float':
+        return repr(spec['v'])
+    if t == 'dict':
+        return '{' + ', '.join('%r: %s' % (k, show_val(x)) for k, x in spec['items']) + '}'
+    return t + '(' + ', '.join(show_val(x) for x in spec['items']) + ')'
+
+
+def plain_int(v):
+    return isinstance(v, int) and not isinstance(v, bool)
 
 
 def canon_call(op, thunk):
@@ -88,6 +184,10 @@ def canon_call(op, thunk):
     o = op['op']
     if o in ('set', 'clear'):
         return ['unit']
+    if o == 'set_many':
+        if not isinstance(r, list):
+            return ['other', repr(r)[:80]]
+        return ['list', [x if isinstance(x, str) else canon(x) for x in r]]
     if o == 'get_many':
         if not isinstance(r, dict):
             return ['other', repr(r)[:80]]
@@ -112,6 +212,8 @@ def show(c):
         return '{' + ', '.join('%r: %s' % (p[0], show(p[1])) for p in c[1]) + '}'
     if k == 'list':
         return repr(c[1])
+    if k == 'val':
+        return '<%s %s #%s>' % (c[1], c[3], c[2][:8])
     return str(c[1])
 
 
@@ -121,8 +223,17 @@ def show_op(op):
         if f in op:
             if f == 'delta' and op[f] is None:
                 continue
-            a.append('%s=%r' % (f, op[f]))
-    return '%s(%s) at t=%r' % (op['op'], ', '.join(a), op['now'])
+            if f == 'value':
+                a.append('value=%s%s' % ('lambda: ' if op.get('callable') else '', show_val(op[f])))
+            elif f == 'items':
+                a.append('items=[%s]' % ', '.join('[%r, %s]' % (k, show_val(v)) for k, v in op[f]))
+            else:
+                a.append('%s=%r' % (f, op[f]))
+    c = ''
+    if op.get('contend'):
+        c = ' while every shard is write-locked for %d failed BEGIN attempt(s)%s' % (
+            op['contend'], ', again before each further transaction of the call' if op.get('rearm') else '')
+    return '%s(%s) at t=%r%s' % (op['op'], ', '.join(a), op['now'], c)
 
 
 # ---------------------------------------------------------------------------
@@ -179,7 +290,7 @@ class Reference:
             return ['map', out]
         if o == 'set_many':
             for k, v in op['items']:
-                self.store(self.vk(k, ver), v, op['timeout'], now)
+                self.store(self.vk(k, ver), mkval(v), op['timeout'], now)
             return ['list', []]
         if o == 'delete_many':
             for k in op['keys']:
@@ -190,12 +301,12 @@ class Reference:
         vk = self.vk(op['key'], ver)
         e = self.live(vk, now)
         if o == 'set':
-            self.store(vk, op['value'], op['timeout'], now)
+            self.store(vk, mkval(op['value']), op['timeout'], now)
             return ['unit']
         if o == 'add':
             if e is not None:
                 return ['bool', False]
-            self.store(vk, op['value'], op['timeout'], now)
+            self.store(vk, mkval(op['value']), op['timeout'], now)
             return ['bool', True]
         if o == 'get':
             return canon(e[0]) if e is not None else ['none']
@@ -224,8 +335,8 @@ class Reference:
         if o == 'get_or_set':
             if e is not None:
                 return canon(e[0])
-            self.store(vk, op['value'], op['timeout'], now)
-            return canon(op['value'])
+            self.store(vk, mkval(op['value']), op['timeout'], now)
+            return canon(mkval(op['value']))
         if o in ('incr_version', 'decr_version'):
             if e is None:
                 return ['raise', 'ValueError']
@@ -257,11 +368,14 @@ def invoke(cache, op):
         else:
             tkw['timeout'] = t
     if o == 'add':
-        return cache.add(op['key'], op['value'], version=ver, **tkw)
+        return cache.add(op['key'], mkval(op['value']), version=ver, **tkw)
     if o == 'set':
-        return cache.set(op['key'], op['value'], version=ver, **tkw)
+        return cache.set(op['key'], mkval(op['value']), version=ver, **tkw)
     if o == 'get_or_set':
-        return cache.get_or_set(op['key'], op['value'], version=ver, **tkw)
+        value = mkval(op['value'])
+        if op.get('callable'):
+            return cache.get_or_set(op['key'], lambda: value, version=ver, **tkw)
+        return cache.get_or_set(op['key'], value, version=ver, **tkw)
     if o == 'touch':
         return cache.touch(op['key'], version=ver, **tkw)
     if o == 'get':
@@ -282,7 +396,7 @@ def invoke(cache, op):
     if o == 'delete_many':
         return cache.delete_many(list(op['keys']), version=ver)
     if o == 'set_many':
-        return cache.set_many(dict((k, v) for k, v in op['items']), version=ver, **tkw)
+        return cache.set_many(dict((k, mkval(v)) for k, v in op['items']), version=ver, **tkw)
     if o == 'clear':
         return cache.clear()
     raise ValueError('unknown op ' + o)
@@ -292,17 +406,31 @@ class Runner:
     """One history: a fresh DjangoCache, LocMemCache and Reference.  Must be used inside instr.Installed(clock, ...)."""
 
     def __init__(self, params, clock, mkdir):
+        """params: SHARDS, TIMEOUT, KEY_PREFIX, VERSION; optional MIN_FILE_SIZE (OPTIONS disk_min_file_size), DATABASE_TIMEOUT,
+        CONTEND (install the tracer so that calls of the history can be made under lock contention)."""
         self.params = params
         self.clock = clock
         clock.set(T0)
+        self.tracer = None
+        self.hook = None
+        self.contended_before = False
+        self.contended_calls = self.waited_calls = 0
+        if params.get('CONTEND'):
+            import sched
+            # installed before DjangoCache opens its connections: they have to be the tracing kind
+            self.tracer = sched.Tracer(before=self._before, after_txn=True)
+            self.tracer.__enter__()
         self.dir = mkdir()
-        p = {'SHARDS': params['SHARDS'], 'TIMEOUT': params['TIMEOUT'], 'KEY_PREFIX': params['KEY_PREFIX'],
-             'VERSION': params['VERSION']}
-        self.dj = DjangoCache(self.dir, dict(p))
+        lp = {'TIMEOUT': params['TIMEOUT'], 'KEY_PREFIX': params['KEY_PREFIX'], 'VERSION': params['VERSION']}
+        p = dict(lp)
+        p['SHARDS'] = params['SHARDS']
+        if params.get('DATABASE_TIMEOUT') is not None:
+            p['DATABASE_TIMEOUT'] = params['DATABASE_TIMEOUT']
+        if params.get('MIN_FILE_SIZE') is not None:
+            p['OPTIONS'] = {'disk_min_file_size': params['MIN_FILE_SIZE']}
+        self.dj = DjangoCache(self.dir, p)
         _uid[0] += 1
         self.lm_name = 'c19-%d-%d' % (os.getpid(), _uid[0])
-        lp = dict(p)
-        del lp['SHARDS']
         lp['OPTIONS'] = {'MAX_ENTRIES': 10 ** 6}
         self.lm = LocMemCache(self.lm_name, lp)
         self.ref = Reference(params['TIMEOUT'], params['VERSION'])
@@ -313,9 +441,77 @@ class Runner:
             self.dj.close()
         except Exception:  # noqa: BLE001
             pass
+        if self.tracer is not None:
+            self.tracer.__exit__(None, None, None)
+            self.tracer = None
         for reg in (dj_locmem._caches, dj_locmem._expire_info, dj_locmem._locks):
             reg.pop(self.lm_name, None)
         shutil.rmtree(self.dir, ignore_errors=True)
+
+    def _before(self, ev):
+        if self.hook is not None:
+            self.hook(ev)
+
+    def call_impl(self, op):
+        """The DjangoCache call; with op['contend'] = k > 0 it is made while one other connection per shard holds that shard's
+        write lock: the locks are released when the calling thread makes its (k+1)-th BEGIN attempt (k attempts have failed), and
+        with op['rearm'] they are taken again right after each COMMIT / ROLLBACK of the call, so that every transaction of the
+        call has to wait through k failed attempts.  The other connections write nothing."""
+        k = op.get('contend')
+        if not k:
+            return invoke(self.dj, op)
+        assert self.tracer is not None, 'a contended call needs params CONTEND'
+        holders = [sqlite3.connect(os.path.join(self.dir, '%03d' % i, 'cache.db'), isolation_level=None, timeout=0)
+                   for i in range(self.params['SHARDS'])]
+        st = {'held': False, 'begins': 0, 'failed': 0}
+
+        def acquire():
+            got = []
+            try:
+                for h in holders:
+                    h.execute('BEGIN IMMEDIATE')
+                    got.append(h)
+            except sqlite3.OperationalError:        # not obtainable right now: the call goes on uncontended
+                for h in got:
+                    h.execute('ROLLBACK')
+                return
+            st['held'] = True
+            st['begins'] = 0
+
+        def release():
+            st['held'] = False
+            for h in holders:
+                h.execute('COMMIT')
+
+        def hook(ev):
+            if ev.kind == 'sql' and ev.what == 'BEGIN':
+                if st['held']:
+                    st['begins'] += 1
+                    if st['begins'] > k:
+                        release()
+                    else:
+                        st['failed'] += 1
+            elif ev.kind == 'sync' and ev.what in ('after-COMMIT', 'after-ROLLBACK'):
+                if op.get('rearm') and not st['held']:
+                    acquire()
+        self.contended_calls += 1
+        try:
+            acquire()
+            self.hook = hook
+            self.tracer.enable(True)
+            try:
+                return invoke(self.dj, op)
+            finally:
+                self.tracer.enable(False)
+                self.hook = None
+        finally:
+            self.waited_calls += st['failed'] > 0
+            try:
+                if st['held']:
+                    release()
+            finally:
+                for h in holders:
+                    h.close()
 
     def step(self, op):
         """Returns a record {'impl','ref','lm','dis': None | (sig, oracle), facts...}."""
@@ -339,7 +535,7 @@ class Runner:
             lm_stale = mk in self.lm._cache and self.lm._has_expired(mk)
         # the three calls, clock frozen
         exp = ref.apply(op, now)
-        obs = canon_call(op, lambda: invoke(self.dj, op))
+        obs = canon_call(op, lambda: self.call_impl(op))
         if o == 'pop':
             lmr = None                      # LocMemCache has no pop: keep its state in step, nothing to compare
             try:
@@ -350,8 +546,13 @@ class Runner:
             lmr = canon_call(op, lambda: invoke(self.lm, op))
         assert self.clock.now == now
         dis = None
+        # what kind of history the disagreement belongs to (plain ones keep the plain names)
+        kind = ('contended_' if op.get('contend') else 'after_contention_' if self.contended_before
+                else 'value_' if (has_val(exp) or has_val(obs) or has_val(lmr)) else '')
+        if op.get('contend'):
+            self.contended_before = True
         if obs != exp:
-            sig = 'mismatch_' + o
+            sig = kind + 'mismatch_' + o
             if (pre is not None and pre[1] is not None and pre[1] == now and exp == ['raise', 'ValueError']
                     and obs == ['int', pre[0] + signed_delta(op)]):
                 sig = REGRESSION            # D6 is back: `expire_time < now` in Cache.incr where lookups use `>`
@@ -360,7 +561,7 @@ class Runner:
             if o == 'delete' and lm_stale:
                 self.stale_excluded += 1    # LocMemCache drops the stale entry and says True; the contract says False
             else:
-                dis = ('locmem_mismatch_' + o, 'locmem')
+                dis = (kind + 'locmem_mismatch_' + o, 'locmem')
         return {'impl': obs, 'ref': exp, 'lm': lmr, 'dis': dis, 'nontrivial': nontrivial,
                 'at': now in exps, 'before': (now + TICK) in exps, 'after': (now - TICK) in exps}
 
@@ -400,9 +601,23 @@ def shrink(params, ops, sig, clock, mkdir):
                 cur = cand
                 changed = True
             j -= 1
+    # contention: none on the earlier calls, the weakest form on the failing one
+    for j in range(len(cur)):
+        if cur[j].get('contend'):
+            tries = []
+            if j < len(cur) - 1:
+                tries.append({k: v for k, v in cur[j].items() if k not in ('contend', 'rearm')})
+            if cur[j].get('rearm'):
+                tries.append(dict(cur[j], rearm=False))
+            if cur[j]['contend'] > 1:
+                tries.append(dict(cur[j], contend=1))
+            for t in tries:
+                cand = cur[:j] + [t] + cur[j + 1:]
+                if last_sig(params, cand, clock, mkdir) == sig:
+                    cur = cand
     p = dict(params)
-    for k, v in (('SHARDS', 1), ('KEY_PREFIX', ''), ('VERSION', 1), ('TIMEOUT', 300)):
-        if p[k] != v:
+    for k, v in (('SHARDS', 1), ('KEY_PREFIX', ''), ('VERSION', 1), ('TIMEOUT', 300), ('DATABASE_TIMEOUT', None)):
+        if p.get(k, v) != v:
             q = dict(p)
             q[k] = v
             if last_sig(q, cur, clock, mkdir) == sig:
@@ -434,6 +649,11 @@ def mkop(o, now, **kw):
         raise ValueError(o)
     if o in HAS_TIMEOUT and isinstance(op['timeout'], str):
         op['pass_default'] = kw.get('pass_default', True)
+    if o == 'get_or_set' and kw.get('callable'):
+        op['callable'] = True
+    if kw.get('contend'):
+        op['contend'] = kw['contend']
+        op['rearm'] = bool(kw.get('rearm'))
     return op
 
 
@@ -455,9 +675,15 @@ def gen_clock(rng, now, ref):
     return now + rng.choice([0, 0, 0, TICK, 1, 2.5])
 
 
-def gen_op(rng, now, ref):
+def gen_op(rng, now, ref, values=None):
+    """values: None = integers 0..9 (the histories the model is run on); else a list of value specs mixed with them."""
     o = rng.choices(OPS, weights=[WEIGHTS[x] for x in OPS])[0]
     known = sorted(ref.d.keys())
+
+    def value():
+        if values is not None and rng.random() < 0.6:
+            return rng.choice(values)
+        return rng.randrange(10)
 
     def version():
         r = rng.random()
@@ -485,11 +711,16 @@ def gen_op(rng, now, ref):
     if o in ('get_many', 'delete_many'):
         return mkop(o, now, keys=keys(), version=version())
     if o == 'set_many':
-        return mkop(o, now, items=[[k, rng.randrange(10)] for k in keys()], timeout=timeout(), version=version(),
+        return mkop(o, now, items=[[k, value()] for k in keys()], timeout=timeout(), version=version(),
                     pass_default=rng.random() < 0.5)
     k, v = key_ver()
+    if values is not None and o in ('incr', 'decr'):
+        e = ref.d.get(ref.vk(k, v))
+        if e is not None and not plain_int(e[0]):
+            o = 'get'                       # arithmetic on a value that is not an integer is outside the property text
     if o in ('add', 'set', 'get_or_set'):
-        return mkop(o, now, key=k, value=rng.randrange(10), timeout=timeout(), version=v, pass_default=rng.random() < 0.5)
+        return mkop(o, now, key=k, value=value(), timeout=timeout(), version=v, pass_default=rng.random() < 0.5,
+                    callable=values is not None and o == 'get_or_set' and rng.random() < 0.3)
     if o == 'touch':
         return mkop(o, now, key=k, timeout=timeout(), version=v, pass_default=rng.random() < 0.5)
     if o in ('incr', 'decr'):
@@ -675,6 +906,121 @@ def directed():
 
 
 # ---------------------------------------------------------------------------
+# the value alphabet
+
+
+DEFAULT_MIN_FILE_SIZE = 2 ** 15      # diskcache's documented default of disk_min_file_size
+
+
+def value_alphabet(m):
+    """Value specs on both sides of the file threshold m (a str / bytes value of at least m characters / bytes is kept in a file,
+    pickled values by the size of their pickle): text over CR, LF, CRLF and a non-ASCII letter, bytes, containers, a float."""
+    def text(unit, total):
+        return {'t': 'str', 'unit': unit, 'n': -(-total // len(unit))}
+
+    def data(unit, total):
+        return {'t': 'bytes', 'unit': unit, 'n': -(-total // (len(unit) // 2))}
+    big = text('q\r\n', m + 9)
+    return [
+        text('ab\r\n', m + 40), text('a\rb', m + 40), text('x\ny\r\nz\r', 2 * m), text('\r', m), text('\r', m + 1),
+        text('\r\n', m - 1 if m % 2 else m - 2), text('\n', m + 5), text('\u00e9\r\n', m + 7), text('line\r\n', m // 2 if m > 64 else 12),
+        {'t': 'str', 'unit': 'sm\r\nx\r', 'n': 1}, {'t': 'str', 'unit': '', 'n': 0},
+        data('0d0a', m + 4), data('00ff0d41', m), data('0d', m - 1), {'t': 'bytes', 'unit': '0d0a1a', 'n': 2},
+        {'t': 'tuple', 'items': [1, big]}, {'t': 'list', 'items': [big, {'t': 'bytes', 'unit': '0d0a', 'n': 3}, 2]},
+        {'t': 'dict', 'items': [['k', big], ['n', {'t': 'float', 'v': 0.5}]]}, {'t': 'tuple', 'items': [1, 'a\rb']},
+        {'t': 'list', 'items': []}, {'t': 'float', 'v': 1.5},
+    ]
+
+
+def directed_values():
+    """One history per value of the alphabet (default threshold and a small one): the value goes in through set, add, get_or_set
+    (plain and callable default) and set_many and comes back through get, get_many, get_or_set, pop and the copies made by
+    incr_version / decr_version; expected results come from the reference."""
+    H = []
+    i = 0
+    for m in (None, 64):
+        for spec in value_alphabet(m or DEFAULT_MIN_FILE_SIZE):
+            i += 1
+            params = {'SHARDS': 1 + i % 3, 'TIMEOUT': (300, None, 7)[i % 3], 'KEY_PREFIX': ('', 'p', 'a:b')[(i // 3) % 3],
+                      'VERSION': 1 + (i // 2) % 2, 'MIN_FILE_SIZE': m}
+            own = params['VERSION']
+            a, b, c = dict(key='a'), dict(key='b'), dict(key='c')
+            up = dict(key='a', version=own + 1)
+            steps = [
+                (0, 'set', dict(key='a', value=spec, timeout=None)), (0, 'get', a), (0, 'get_many', dict(keys=['a', 'b'])),
+                (0, 'get_or_set', dict(key='a', value=1)), (0, 'add', dict(key='a', value=2)), (0, 'get', a),
+                (0, 'add', dict(key='b', value=spec, timeout=5)), (0, 'get', b), (0, 'has_key', b),
+                (1, 'incr_version', a), (1, 'get', up), (1, 'get', a), (1, 'get_many', dict(keys=['b', 'a'], version=own + 1)),
+                (1, 'touch', dict(key='a', timeout=None, version=own + 1)), (1, 'decr_version', up), (1, 'get', a), (1, 'has_key', up),
+                (2, 'pop', a), (2, 'get', a), (2, 'pop', a),
+                (2, 'get_or_set', dict(key='c', value=spec)), (2, 'get', c), (2, 'get_or_set', dict(key='c', value=3)),
+                (2, 'get_or_set', dict(key='a:1', value=spec, timeout=5, callable=True)), (2, 'get', dict(key='a:1')),
+                (3, 'set_many', dict(items=[['a', spec], ['c', 3], ['1:a', spec]], timeout=None)),
+                (3, 'get_many', dict(keys=['c', 'a', '1:a', 'b'])), (3, 'set', dict(key='a', value=4)), (3, 'get', a),
+                (3, 'set', dict(key='a', value=spec, timeout=5)), (3, 'get', a), (3, 'delete', a), (3, 'get', a),
+                (5, 'get', b), (5, 'pop', b), (5, 'incr_version', dict(key='1:a', delta=2)),
+                (5, 'pop', dict(key='1:a', version=own + 2)),
+            ]
+            H.append(('value', params, [mkop(o, T0 + dt, **kw) for dt, o, kw in steps]))
+    return H
+
+
+# ---------------------------------------------------------------------------
+# contention
+
+
+def directed_contention():
+    """Every method of the contract once as the contended call (twice: k = 1 re-armed, k = 2 once), on live and on missing keys,
+    followed by lookups of every key under both versions now and after the short timeouts have run out."""
+    H = []
+    finals = {
+        'set': [('set', dict(key='a', value=9, timeout=5)), ('set', dict(key='c', value=3))],
+        'add': [('add', dict(key='c', value=3)), ('add', dict(key='a', value=4))],
+        'get': [('get', dict(key='a')), ('get', dict(key='zz'))],
+        'touch': [('touch', dict(key='a', timeout=5)), ('touch', dict(key='zz', timeout=5)), ('touch', dict(key='b', timeout=None))],
+        'delete': [('delete', dict(key='a')), ('delete', dict(key='a')), ('delete', dict(key='b'))],
+        'incr': [('incr', dict(key='a')), ('incr', dict(key='zz')), ('incr', dict(key='b', delta=2))],
+        'decr': [('decr', dict(key='a', delta=2)), ('decr', dict(key='zz'))],
+        'has_key': [('has_key', dict(key='a')), ('has_key', dict(key='c'))],
+        'get_many': [('get_many', dict(keys=['a', 'b', 'c']))],
+        'set_many': [('set_many', dict(items=[['a', 1], ['c', 2], ['b', 3]], timeout=5))],
+        'delete_many': [('delete_many', dict(keys=['a', 'b', 'c']))],
+        'get_or_set': [('get_or_set', dict(key='c', value=3)), ('get_or_set', dict(key='a', value=8))],
+        'incr_version': [('incr_version', dict(key='b')), ('incr_version', dict(key='zz'))],
+        'decr_version': None,
+        'pop': [('pop', dict(key='a')), ('pop', dict(key='a')), ('pop', dict(key='b'))],
+        'clear': [('clear', {})],
+    }
+    i = 0
+    for o in OPS:
+        for k, rearm in ((1, True), (2, False)):
+            i += 1
+            params = {'SHARDS': 1 + i % 3, 'TIMEOUT': (300, 7, None)[i % 3], 'KEY_PREFIX': ('', 'p', 'a:b')[(i // 3) % 3],
+                      'VERSION': 1 + (i // 2) % 2, 'CONTEND': True, 'DATABASE_TIMEOUT': None if i % 8 == 0 else 0}
+            own = params['VERSION']
+            other = 3 - own
+            fin = finals[o] or [('decr_version', dict(key='a', version=own + 1)), ('decr_version', dict(key='zz'))]
+            ops = [mkop('set', T0, key='a', value=5, timeout=None), mkop('set', T0, key='b', value=7, timeout=5),
+                   mkop('set', T0, key='a', value=6, version=own + 1), mkop('add', T0, key='a:1', value=1),
+                   mkop('set', T0, key='b', value=2, version=other)]
+            ops += [mkop(f, T0 + 1, contend=k, rearm=rearm, **kw) for f, kw in fin]
+            for t in (T0 + 1, T0 + 6 - TICK, T0 + 6, T0 + 20):
+                for v in (None, own + 1, other, own + 2):
+                    ops.append(mkop('get_many', t, keys=KEYS + ['zz'], version=v))
+                ops += [mkop('has_key', t, key='a'), mkop('has_key', t, key='b'), mkop('has_key', t, key='c')]
+            H.append(('contention_' + o, params, ops))
+    return H
+
+
+def gen_contended_op(rng, now, ref):
+    op = gen_op(rng, now, ref)
+    if rng.random() < 0.4:
+        op['contend'] = rng.choice([1, 1, 2, 3])
+        op['rearm'] = rng.random() < 0.6
+    return op
+
+
+# ---------------------------------------------------------------------------
 # monitor
 
 
@@ -691,6 +1037,9 @@ class Stats:
         self.stale = 0
         self.per_sig = {}
         self.sampled = set()
+        self.value_histories = self.value_calls = self.file_values = 0
+        self.contention_histories = self.contended = self.waited = 0
+        self.contended_ops = {}
 
     def call(self, op, rec):
         self.calls += 1
@@ -704,6 +1053,9 @@ class Stats:
         self.before += rec['before']
         self.after += rec['after']
         self.errors += rec['impl'][0] == 'raise'
+        self.value_calls += has_val(rec['impl'])
+        if op.get('contend'):
+            self.contended_ops[op['op']] = self.contended_ops.get(op['op'], 0) + 1
 
     def extra(self):
         return {'op_histogram': dict(sorted(self.ops.items())), 'timeout_class_histogram': self.tclass,
@@ -711,11 +1063,25 @@ class Stats:
                 'calls_one_tick_after_expiry': self.after,
                 'error_fraction': round(self.errors / self.calls, 4) if self.calls else 0.0,
                 'histories': self.histories, 'directed_histories': self.directed, 'configs': len(self.configs),
-                'locmem_delete_stale_excluded': self.stale, 'violations_by_sig': dict(sorted(self.per_sig.items()))}
+                'locmem_delete_stale_excluded': self.stale, 'violations_by_sig': dict(sorted(self.per_sig.items())),
+                'value_histories': self.value_histories, 'calls_returning_a_non_integer_value': self.value_calls,
+                'contention_histories': self.contention_histories, 'contended_calls': self.contended,
+                'contended_calls_with_a_failed_begin': self.waited,
+                'contended_op_histogram': dict(sorted(self.contended_ops.items()))}
 
 
 def cfg_of(params):
     return [params['SHARDS'], params['TIMEOUT'], params['KEY_PREFIX'], params['VERSION']]
+
+
+def cfg_extra(params):
+    """the optional parameters of a history, when they are not the backend's defaults"""
+    out = ''
+    if params.get('MIN_FILE_SIZE') is not None:
+        out += ', OPTIONS disk_min_file_size=%r' % params['MIN_FILE_SIZE']
+    if params.get('DATABASE_TIMEOUT') is not None:
+        out += ', DATABASE_TIMEOUT=%r' % params['DATABASE_TIMEOUT']
+    return out
 
 
 def report(res, st, params, ops, i, rec, clock, mkdir):
@@ -733,15 +1099,16 @@ def report(res, st, params, ops, i, rec, clock, mkdir):
             oracle = rec['dis'][1]
     expected = rec['ref'] if oracle == 'reference' else rec['lm']
     op = hops[-1]
-    desc = '%s: DjangoCache -> %s, %s -> %s (cfg SHARDS/TIMEOUT/KEY_PREFIX/VERSION = %r, %d calls)' % (
+    desc = '%s: DjangoCache -> %s, %s -> %s (cfg SHARDS/TIMEOUT/KEY_PREFIX/VERSION = %r%s, %d calls%s)' % (
         show_op(op), show(rec['impl']), 'contract' if oracle == 'reference' else 'LocMemCache', show(expected),
-        cfg_of(hp), len(hops))
+        cfg_of(hp), cfg_extra(hp), len(hops),
+        ', an earlier call of the history was made under lock contention' if sig.startswith('after_contention_') else '')
     res.violations.append(fw.Violation(sig, desc, {
         'check': 'history', 'params': hp, 'ops': hops, 'failing_index': len(hops) - 1, 'expected': expected,
         'observed': rec['impl'], 'oracle': oracle, 'locmem': rec['lm'], 'reference': rec['ref']}))
 
 
-def run_history(res, st, params, clock, mkdir, ops=None, rng=None, length=0, name=None):
+def run_history(res, st, params, clock, mkdir, ops=None, rng=None, length=0, name=None, gen=gen_op):
     """Fixed ops (directed / replay) or generated op by op from the reference's state.  Returns (ops, records)."""
     r = Runner(params, clock, mkdir)
     done, recs = [], []
@@ -753,7 +1120,7 @@ def run_history(res, st, params, clock, mkdir, ops=None, rng=None, length=0, nam
                 op = ops[i]
             else:
                 now = gen_clock(rng, now, r.ref)
-                op = gen_op(rng, now, r.ref)
+                op = gen(rng, now, r.ref)
             rec = r.step(op)
             done.append(op)
             recs.append(rec)
@@ -770,6 +1137,8 @@ def run_history(res, st, params, clock, mkdir, ops=None, rng=None, length=0, nam
                 break                       # states may have diverged: later calls would only echo this one
     finally:
         st.stale += r.stale_excluded
+        st.contended += r.contended_calls
+        st.waited += r.waited_calls
         r.close()
     st.histories += 1
     st.configs.add(tuple(cfg_of(params)))
@@ -793,8 +1162,42 @@ def monitor(ctx, res, nrandom, lo, hi, st=None):
             params = gen_params(ctx.rng)
             done, recs = run_history(res, st, params, clock, mkdir, rng=ctx.rng, length=ctx.rng.randint(lo, hi))
             out.append((params, done, recs))
+        monitor_values(ctx, res, st, clock, mkdir, max(6, nrandom // 8))
+        monitor_contention(ctx, res, st, clock, mkdir, max(10, nrandom // 5))
     res.extra.update(st.extra())
     return out
+
+
+def monitor_values(ctx, res, st, clock, mkdir, nrandom):
+    """The value dimension: what get / get_many / get_or_set / pop return, and what incr_version / decr_version copy, is the value
+    that was stored -- same type, same contents -- for values on both sides of the file threshold."""
+    rng = ctx.rng
+    for name, params, ops in directed_values():
+        run_history(res, st, params, clock, mkdir, ops=ops, name=name)
+        st.value_histories += 1
+    for _ in range(nrandom):
+        params = gen_params(rng)
+        params['MIN_FILE_SIZE'] = rng.choice([None, None, 64])
+        alphabet = value_alphabet(params['MIN_FILE_SIZE'] or DEFAULT_MIN_FILE_SIZE)
+        run_history(res, st, params, clock, mkdir, rng=rng, length=rng.randint(14, 22),
+                    gen=lambda r, now, ref: gen_op(r, now, ref, values=alphabet))
+        st.value_histories += 1
+
+
+def monitor_contention(ctx, res, st, clock, mkdir, nrandom):
+    """The contention dimension: a call that finds the shard write-locked by another connection waits (retry=True is the default of
+    every writing DjangoCache method) and then returns and does exactly what the contract says -- the same reference and the same
+    LocMemCache as without contention -- and the calls after it see the state the contract describes."""
+    rng = ctx.rng
+    for name, params, ops in directed_contention():
+        run_history(res, st, params, clock, mkdir, ops=ops, name=name)
+        st.contention_histories += 1
+    for _ in range(nrandom):
+        params = gen_params(rng)
+        params['CONTEND'] = True
+        params['DATABASE_TIMEOUT'] = None if rng.random() < 0.08 else 0
+        run_history(res, st, params, clock, mkdir, rng=rng, length=rng.randint(8, 16), gen=gen_contended_op)
+        st.contention_histories += 1
 
 
 REGRESSION_PARAMS = {'SHARDS': 1, 'TIMEOUT': 300, 'KEY_PREFIX': '', 'VERSION': 1}
@@ -984,7 +1387,20 @@ RULE = (
     'entry.  A failing history is shrunk greedily before it is reported.  Correspondence: the same histories through '
     'run (dj_step cfg) [] of coq/model/Django.v, one result_eqb check per call against DjangoCache\'s result.  '
     'non-trivial = the call names a (version,key) that exists or existed in the reference; distinct = distinct (config, call '
-    'with its clock value, result).')
+    'with its clock value, result).  '
+    'Value dimension (monitors only; same reference and LocMemCache; nrandom/8 generated histories of 14-22 calls + 42 directed ones): '
+    'the values of add/set/get_or_set (plain and callable default)/set_many are drawn with probability 0.6 from an alphabet on both '
+    'sides of the file threshold m = disk_min_file_size (default 32768, or OPTIONS disk_min_file_size=64): text of length m-2..2m over '
+    'CRLF, lone CR, LF and a non-ASCII letter, bytes with 0d/0a/00/ff, short text/bytes, the empty string, tuple/list/dict around a text '
+    'of m+9 characters, small containers, a float; every result of get/get_many/get_or_set/pop, also after the copy made by '
+    'incr_version/decr_version, must be of the same type and have the same contents (recursively) as the value stored; incr/decr are '
+    'not generated for keys holding a non-integer.  '
+    'Contention dimension (monitors only; nrandom/5 generated histories of 8-16 calls + 32 directed ones covering every method): a call '
+    'is made, with probability 0.4, while one other sqlite3 connection per shard holds that shard\'s write lock (BEGIN IMMEDIATE); '
+    'the locks are released when the calling thread makes its (k+1)-th BEGIN attempt, k in {1,2,3}, and with probability 0.6 taken '
+    'again after every COMMIT/ROLLBACK of the call (each of its transactions waits); DATABASE_TIMEOUT 0, sometimes the default 10 ms.  '
+    'The call\'s result and every later call of the history are compared with the same reference and LocMemCache as without '
+    'contention (sig contended_* / after_contention_*).')
 
 
 def run(ctx):
@@ -1020,7 +1436,7 @@ def replay(payload):
     ok = True
     with instr.Installed(clock, extra_modules=[dj_base, dj_locmem]):
         recs = execute(params, ops, clock, lambda: tempfile.mkdtemp(prefix='c19r-'))
-    print('config SHARDS/TIMEOUT/KEY_PREFIX/VERSION = %r' % cfg_of(params))
+    print('config SHARDS/TIMEOUT/KEY_PREFIX/VERSION = %r%s' % (cfg_of(params), cfg_extra(params)))
     for i, (op, rec) in enumerate(zip(ops, recs)):
         flag = ''
         if rec['dis']:
